@@ -141,8 +141,9 @@ func checkC02Case(c *Case, rep *core.Report) {
 	}
 	// the same reads on a Reader that has already served Info(): asking for the summary first must not
 	// change what a read returns (in particular not turn a fall-back scan into an empty one)
-	for _, v := range []readVariant{{"Info() followed by Messages()", nil, mcap.FileOrder}, {"Info() followed by Messages(UsingIndex(false))", []mcap.ReadOpt{mcap.UsingIndex(false)}, mcap.FileOrder}} {
-		ir := drive.ReadMessages(bytes.NewReader(data), drive.IterOpts{Opts: v.opts, InfoFirst: true})
+	for k, v := range []readVariant{{"Info() followed by Messages()", nil, mcap.FileOrder}, {"Info() followed by Messages(UsingIndex(false))", []mcap.ReadOpt{mcap.UsingIndex(false)}, mcap.FileOrder},
+		{"Messages(UsingIndex(false)), then Info(), then the iteration", []mcap.ReadOpt{mcap.UsingIndex(false)}, mcap.FileOrder}} {
+		ir := drive.ReadMessages(bytes.NewReader(data), drive.IterOpts{Opts: v.opts, InfoFirst: k < 2, WantInfo: k == 2})
 		rep.Count("reads_after_info", 1)
 		if ir.Panic != nil {
 			rep.Violate("indexed-panic", fmt.Sprintf("%s: %s panicked: %v", c.Describe(), v.name, ir.Panic), c.Witness())
